@@ -67,6 +67,17 @@ Fixpoint dict_set (k : N) (v : nat) (d : list (N * nat)) : list (N * nat) :=
 Definition is_empty (d : bytes) : bool := match d with [] => true | _ => false end.
 Definition FUEL : nat := 6%nat.
 
+(* a sequence of allocator calls (is_client, is_unidirectional) on the counters nx *)
+Fixpoint alloc_seq (nx : list N) (calls : list (bool * bool)) : option (list N * list N) :=
+  match calls with
+  | [] => Some ([], nx)
+  | (c, u) :: t =>
+    match get_next_available_stream_id nx c u with
+    | None => None
+    | Some (id, nx') => match alloc_seq nx' t with Some (ids, f) => Some (id :: ids, f) | None => None end
+    end
+  end.
+
 Section Demux.
 Variable C : Type.
 Variable child_step : C -> connst * connst -> cevent -> C * list ccmd.
@@ -202,6 +213,14 @@ Definition do_cmd (rec : wrap -> nat -> cevent -> state -> state)
     end
   end.
 
+(* the `for command in child_layer.handle_event(event)` loop; an exception ends it *)
+Fixpoint run_cmds (rec : wrap -> nat -> cevent -> state -> state)
+         (w : wrap) (L : nat) (cmds : list ccmd) (st : state) {struct cmds} : state :=
+  match cmds with
+  | [] => st
+  | cmd :: rest => match err st with Some _ => st | None => run_cmds rec w L rest (do_cmd rec w L cmd st) end
+  end.
+
 (* RawQuicLayer.event_to_child for a QuicStreamLayer child *)
 Fixpoint etc (fuel : nat) (w : wrap) (L : nat) (ev : cevent) (st : state) {struct fuel} : state :=
   match fuel with
@@ -211,11 +230,7 @@ Fixpoint etc (fuel : nat) (w : wrap) (L : nat) (ev : cevent) (st : state) {struc
     | None => fail Internal st
     | Some l =>
       let '(c', cmds) := child_step (cst l) (cconn l, sconn l) ev in
-      (fix go (cmds : list ccmd) (st : state) {struct cmds} : state :=
-         match cmds with
-         | [] => st
-         | cmd :: rest => match err st with Some _ => st | None => go rest (do_cmd (etc f) w L cmd st) end
-         end) cmds (upd_layer L (set_cst c') st)
+      run_cmds (etc f) w L cmds (upd_layer L (set_cst c') st)
     end
   end.
 
@@ -232,29 +247,35 @@ Definition post (from : side) (k : skind) (L : nat) (st : state) : state :=
   | KStop _ => fail UnexpectedStreamEvent st
   end end.
 
+(* a new QuicStreamLayer is created and registered: Some (its index, new state); None = IndexError in the allocator *)
+Definition create_layer (from : side) (id : N) (st : state) : option (nat * state) :=
+  let alloc := match from with
+               | Cl => Some (id, None, st)
+               | Sv => match get_next_available_stream_id (next_ids st) false (stream_is_unidirectional id) with
+                       | None => None
+                       | Some (c, nx) => Some (c, Some id, with_next nx st)
+                       end
+               end in
+  match alloc with
+  | None => None
+  | Some (c, so, st0) =>
+    let L := length (layers st0) in
+    let st1 := with_client_ids (dict_set c L (client_ids st0))
+                 (with_layers (layers st0 ++ [mkLayer c None (init_cconn c) closed_conn (new_child L)]) st0) in
+    Some (L, match so with
+             | Some s => let st' := open_server_stream L s st1 in with_server_ids (dict_set s L (server_ids st')) st'
+             | None => st1
+             end)
+  end.
+
 Definition handle_stream (from : side) (id : N) (k : skind) (st : state) : state :=
   match dict_get id (match from with Cl => client_ids st | Sv => server_ids st end) with
   | Some L => post from k L st
   | None =>
     if negb (Bool.eqb (stream_is_client_initiated id) (is_cl from)) then fail AssertInitiator st else
-    let alloc := match from with
-                 | Cl => Some (id, None, st)
-                 | Sv => match get_next_available_stream_id (next_ids st) false (stream_is_unidirectional id) with
-                         | None => None
-                         | Some (c, nx) => Some (c, Some id, with_next nx st)
-                         end
-                 end in
-    match alloc with
+    match create_layer from id st with
     | None => fail CounterIndex st
-    | Some (c, so, st0) =>
-      let L := length (layers st0) in
-      let st1 := with_client_ids (dict_set c L (client_ids st0))
-                   (with_layers (layers st0 ++ [mkLayer c None (init_cconn c) closed_conn (new_child L)]) st0) in
-      let st2 := match so with
-                 | Some s => let st' := open_server_stream L s st1 in with_server_ids (dict_set s L (server_ids st')) st'
-                 | None => st1
-                 end in
-      post from k L (etc FUEL WNone L EvStart st2)
+    | Some (L, st2) => post from k L (etc FUEL WNone L EvStart st2)
     end
   end.
 
